@@ -391,7 +391,7 @@ theorem muleFilter_bookLe (d : Desc) : ∀ (ps : List Peer) (n : Node),
     · simp only [h, Bool.false_eq_true, if_false]
       exact ih.mono (fun e ⟨q, hq, hqe⟩ => ⟨q, List.mem_cons_of_mem _ hq, hqe⟩)
 
-theorem attempts_bookLe (k : Key) (n : Node) (a : List ((Nat × Nat) × Nat)) :
+theorem attempts_bookLe (k : Key) (n : Node) (a : List ((Nat × Nat × Nat) × Nat)) :
     BookLe (fun _ => False) k n { n with attempts := a } := fun _ h _ => h
 
 /-- The transmissions: only peers whose `Send` failed are taken out of the list. -/
@@ -401,18 +401,18 @@ theorem sendAll_bookLe (env : Env) (d : Desc) (b : Bundle) : ∀ (ps : List Peer
   | [], n => fun _ h _ => h
   | p :: ps, n => by
     simp only [sendAll]
-    by_cases hok : env.sendOk p.addr b.tag (attemptNo n p.addr b.tag) = true
+    by_cases hok : env.sendOk p.addr b.tag (attemptNo n p.addr b.tag b.seq) = true
     · simp only [hok, if_true]
-      have ih := sendAll_bookLe env d b ps { n with attempts := setNat n.attempts (p.addr, b.tag) (attemptNo n p.addr b.tag + 1) }
+      have ih := sendAll_bookLe env d b ps { n with attempts := setNat n.attempts (p.addr, b.tag, b.seq) (attemptNo n p.addr b.tag b.seq + 1) }
       refine ((attempts_bookLe d.key n _).trans ih).mono ?_
       intro e he
       rcases he with he | ⟨q, hq, hm, hqe⟩
       · exact absurd he id
       · exact ⟨q, List.mem_cons_of_mem _ hq, List.mem_cons_of_mem _ hm, hqe⟩
-    · have hok' : env.sendOk p.addr b.tag (attemptNo n p.addr b.tag) = false := by
-        cases h : env.sendOk p.addr b.tag (attemptNo n p.addr b.tag) <;> simp_all
+    · have hok' : env.sendOk p.addr b.tag (attemptNo n p.addr b.tag b.seq) = false := by
+        cases h : env.sendOk p.addr b.tag (attemptNo n p.addr b.tag b.seq) <;> simp_all
       simp only [hok', Bool.false_eq_true, if_false]
-      have ih := sendAll_bookLe env d b ps (reportFailure d p { n with attempts := setNat n.attempts (p.addr, b.tag) (attemptNo n p.addr b.tag + 1) })
+      have ih := sendAll_bookLe env d b ps (reportFailure d p { n with attempts := setNat n.attempts (p.addr, b.tag, b.seq) (attemptNo n p.addr b.tag b.seq + 1) })
       refine (((attempts_bookLe d.key n _).trans (reportFailure_bookLe d p _)).trans ih).mono ?_
       intro e he
       rcases he with (he | he) | ⟨q, hq, hm, hqe⟩
@@ -858,11 +858,11 @@ theorem transmit_bstep (env : Env) (d : Desc) (b : Bundle) (n : Node) (hk : b.ke
       dispatching_names' env { d with bndl := some b, cons := { d.cons with dp := true } } b _ rfl⟩
 
 theorem sendBundle_bstep (env : Env) (b : Bundle) (n : Node)
-    (hidk : lookupNat n.idk (b.src, b.ts) = none ∧ b.seq = 0) :
+    (hidk : lookupNat n.idk (b.src, b.ts) = none ∧ b.seq = 0) (hfresh : n.store.get b.key = none) :
     BStep b b.key n (sendBundle env b n).1 ∧ ∀ o ∈ (sendBundle env b n).2, ∃ p ok, o = Output.sent p b ok := by
   unfold sendBundle
   simp only
-  rcases seqStep_x n.cfg.seqFirst b n hidk with ⟨x, hx, hx0, _⟩
+  rcases seqStep_x n.cfg.seqFirst b n hidk hfresh with ⟨x, hx, hx0, _⟩
   rw [hx]
   simp only
   unfold newDescFromBundle
@@ -899,8 +899,8 @@ theorem submit_prev (env : Env) (c : Cfg) (b : Bundle) (n : Node) (w : WF n) (hp
     (hfresh : n.store.get b.key = none)
     (hidk : lookupNat n.idk (b.src, b.ts) = none ∧ b.seq = 0) (hprev : b.prev = none) :
     PrevInv c (sendBundle env b n).1 ∧ ∀ o ∈ (sendBundle env b n).2, NoRet c o := by
-  have hstep := sendBundle_kstep env b n w hidk
-  have hb := sendBundle_bstep env b n hidk
+  have hstep := sendBundle_kstep env b n w hidk hfresh
+  have hb := sendBundle_bstep env b n hidk hfresh
   constructor
   · intro k it' hg' hrep e he
     by_cases hk : k = b.key
